@@ -461,6 +461,7 @@ func (e *Exec) sentinel(name string) T {
 // freshErr returns a new non-nil, non-sentinel error; wraps records %w.
 func (e *Exec) freshErr(st *State, tag string, wraps *T) VErr {
 	t := e.fresh("err_"+tag, BV32)
+	st.assume(Ne(t, BVConst(32, 0)))
 	st.assume(BVCmp("bvugt", t, BVConst(32, maxSentinel)))
 	if wraps != nil {
 		e.specFns["unwrap"] = true
